@@ -6,6 +6,7 @@ in Proof/YamlPos.lean.  `pc`/`siw` are the per-word primitives `u64::count_ones`
 -/
 import SuccinctlyVerif.Proof.YamlPos
 import SuccinctlyVerif.Model.Words
+import SuccinctlyVerif.Generated.C17
 namespace SV.Props.C17
 open SV SV.YamlPos
 
@@ -44,6 +45,60 @@ theorem history_answers (hpc : ∀ w, pc w = popcount w) (hsiw : ∀ w k, siw w 
 `as u32` cast is idempotent). -/
 theorem flavors_ok (pc : Word → Nat) : FlavorOk pc (openFlavor pc) ∧ FlavorOk pc (endFlavor pc) :=
   ⟨openFlavor_ok pc, endFlavor_ok pc⟩
+
+/-- The property's statement for start positions, at full strength (every recorded position
+`≤ text_len` is returned after every history).  **False** for the code as it stands — see
+`f4_witness` — and therefore only defined, never asserted. -/
+def open_get_exact_full_statement : Prop :=
+  ∀ (positions : List Nat) (textLen : Nat),
+    (∀ p ∈ positions, p ≤ textLen) → (∀ p ∈ positions, p < 2 ^ 32) → positions.length < usizeMax →
+    ∀ (hist : List Nat) (i : Nat),
+      ((OpenPositions.build popc selectCtz 256 positions textLen).get popc selectCtz 256
+        ((OpenPositions.build popc selectCtz 256 positions textLen).runFrom popc selectCtz 256
+          Cursor.init hist).2 i).1 = .val positions[i]?
+
+/-- `open_get_exact_partial`: for every `u32` start-position sequence (monotone with duplicates →
+compact Advance Index; anything else → dense), every text length and **every lookup history**,
+`OpenPositions::get(i)` returns exactly `positions[i]` (`None` past the end).  Missing with respect
+to `open_get_exact_full_statement`: the case of a recorded position equal to `text_len` when
+`text_len % 64 = 0` (finding F4: the IB bitmap has `⌈text_len/64⌉` words, so that bit is dropped). -/
+theorem open_get_exact_partial (hpc : ∀ w, pc w = popcount w) (hsiw : ∀ w k, siw w k = selectInWordSpec w k)
+    (hrate : 0 < rate) (positions : List Nat) (textLen : Nat)
+    (hdom : ∀ p ∈ positions, p ≤ textLen ∧ (p = textLen → textLen % 64 ≠ 0))
+    (hu32 : ∀ p ∈ positions, p < 2 ^ 32) (hsmall : positions.length < usizeMax)
+    (hist : List Nat) (i : Nat) :
+    ((OpenPositions.build pc siw rate positions textLen).get pc siw rate
+      ((OpenPositions.build pc siw rate positions textLen).runFrom pc siw rate Cursor.init hist).2 i).1
+      = .val positions[i]? := by
+  apply open_get_after hpc hsiw hrate positions textLen _ hu32 hsmall
+  intro p hp
+  obtain ⟨h1, h2⟩ := hdom p hp
+  unfold divCeil
+  by_cases h : p = textLen
+  · have := h2 h; omega
+  · omega
+
+/-- The exact guard the code needs: the same conclusion whenever every position is below
+`64 · ⌈text_len / 64⌉` (this also covers positions beyond `text_len`). -/
+theorem open_get_exact_under_capacity (hpc : ∀ w, pc w = popcount w)
+    (hsiw : ∀ w k, siw w k = selectInWordSpec w k) (hrate : 0 < rate) (positions : List Nat) (textLen : Nat)
+    (hcap : ∀ p ∈ positions, p < 64 * divCeil textLen 64)
+    (hu32 : ∀ p ∈ positions, p < 2 ^ 32) (hsmall : positions.length < usizeMax)
+    (hist : List Nat) (i : Nat) :
+    ((OpenPositions.build pc siw rate positions textLen).get pc siw rate
+      ((OpenPositions.build pc siw rate positions textLen).runFrom pc siw rate Cursor.init hist).2 i).1
+      = .val positions[i]? :=
+  open_get_after hpc hsiw hrate positions textLen hcap hu32 hsmall hist i
+
+/-- The extracted sample rate satisfies the side condition `0 < rate`. -/
+theorem sample_rate_pos : 0 < Gen.YAML_SELECT_SAMPLE_RATE := by decide
+
+/-- The full statement is refuted by the model of the code (finding F4). -/
+theorem open_get_exact_full_statement_false : ¬ open_get_exact_full_statement := by
+  intro h
+  have := h [0, 64] 64 (by decide) (by decide) (by decide) [] 1
+  revert this
+  decide +kernel
 
 /-- Finding F4, refutation witness on the model of the code: with start positions `[0, 64]` and
 `text_len = 64` the open-position table answers `None` for node 1 (recorded start 64). -/
